@@ -201,6 +201,7 @@ class OptimizerGeneric:
             x0 = self._x[-1]
             for idvar, var in enumerate(self.problem.variables):
                 var.update(x0[idvar])
+            self.problem.update_optics()  # re-apply pickups and solves
             self._x.pop(-1)
 
     def _apply_solution(self, x):
